@@ -365,6 +365,21 @@ def _vfield_list():
     return HarnessFn("vfield", lambda it, a, kw, site: [T.mk("call", (A("vfield"), *a), kw, meta={"array": True})])
 
 
+
+def damping_obligation(r5, name, cond, where):
+    """The observation noise of the linearised model is a Dirac at the offset, regularised by the caller's damping -- and by nothing else."""
+    noise = cond.fields.get("noise") if isinstance(cond, Rec) else None
+    chol = noise.fields.get("cholesky_flat") if isinstance(noise, Rec) else None
+    mean = noise.fields.get("mean_flat") if isinstance(noise, Rec) else None
+    if chol is None:
+        r5.unknown(f"{name}.linearize damping", "noise record not found", where)
+        return
+    va = T.value_atoms(chol)
+    r5.require("damp" in va and va <= {"damp"}, f"{name}.linearize damping", "noise Cholesky factor = damp * identity (depends on damp only)",
+               f"noise Cholesky factor depends by value on {sorted(va)}: {T.show(chol, 4)}; expected the caller's damp only", where_of(chol, where))
+    r5.require("damp" not in T.value_atoms(mean), f"{name}.linearize offset undamped", "the offset does not depend on damp", f"offset depends on damp: {T.show(mean, 4)}", where)
+
+
 def linearize_rules(chk, S, r5):
     tt, damp, state = A("t"), A("damp"), A("lin_state")
     # --- residual linearisations
@@ -401,6 +416,7 @@ def linearize_rules(chk, S, r5):
         if cond is None:
             r5.fail(f"{name}.linearize result", f"no conditional record: {T.show(out, 2)}", where)
             continue
+        damping_obligation(r5, name, cond, where)
         bias = cond.fields["noise"].fields["mean_flat"]
         J = T.mk("getitem", (h, 1))
         fx = T.mk("getitem", (h, 0))
@@ -469,6 +485,7 @@ def linearize_rules(chk, S, r5):
         if cond is None:
             r5.fail(f"{name}.linearize result", f"{T.show(out, 2)}", qual)
             continue
+        damping_obligation(r5, name, cond, qual)
         # bias = -f
         def unlayout(v):
             while True:
